@@ -13,9 +13,17 @@ type Program struct {
 	Fam   string
 	Prog  []*lang.N
 	Names []string // top-level variables whose final values are compared
+	Toks  []lang.Tok // when set, the exact token sequence of the source (F1: flat operator chains)
 }
 
-func (p Program) Src() string { return lang.Src(p.Prog) }
+func (p Program) Tokens() []lang.Tok {
+	if p.Toks != nil {
+		return p.Toks
+	}
+	return lang.Render(p.Prog)
+}
+
+func (p Program) Src() string { return lang.Source(p.Tokens()) }
 
 // ------------------------------------------------------------------ F2 control skeletons
 
